@@ -445,6 +445,14 @@ def correspond(run, case, ans, model_str, what):
     return ok, sim, parts
 
 
+def runs_to_quiescence(case):
+    """does the schedule, run by the simulator, end with every inbox and engine output queue empty?"""
+    sim = Sim(case["prog"], case["cap"], block=BLOCK)
+    for m in case["sched"]:
+        sim.step(tuple(m))
+    return sim.quiescent()
+
+
 def finish_rounds(sim, sched, extra=1):
     """poll every context (sinks first) until the simulator is quiescent, plus extra full rounds"""
     for _ in range(60):
